@@ -630,6 +630,16 @@ multiplication of coefficient lists from scratch and `IsCrcRemainder p init msg 
 `r`), uniqueness (Euclid: a non-zero multiple of a monic polynomial of degree `w` has degree ≥ `w`) and hence
 "the routine's value is THE remainder" are theorems. -/
 
+/-- the multiplication the specification uses IS the product of polynomials: coefficient `i` of `p·q` is the
+convolution `Σ_{j ≤ i} p_j·q_{i-j}` over GF(2) (`xorSum f n = f 0 + … + f (n-1)`), and the addition is coefficient-wise -/
+theorem gf2_mul_is_convolution (p q : List Bool) (i : Nat) :
+    coeff (pmul p q) i = xorSum (fun j => coeff p j && coeff q (i - j)) (i + 1) ∧
+      coeff (padd p q) i = (coeff p i != coeff q i) :=
+  ⟨coeff_pmul_conv p q i, coeff_padd p q i⟩
+
+/-- (1 + X)·(1 + X) = 1 + X² over GF(2) -/
+example : pmul [true, true] [true, true] = [true, false, true] := by decide
+
 /-- existence: `polyMod G a` is a remainder in the algebraic sense (`a = q·G + r`) with `min |a| w` coefficients -/
 theorem polyMod_is_remainder (p a : List Bool) :
     (∃ q, ∀ i, hcoeff a i = (coeff (pmul q (true :: p).reverse) i != hcoeff (polyMod (true :: p) a) i)) ∧
